@@ -14,7 +14,7 @@ func init() {
 }
 
 func checkC10(w *World, r *Report) {
-	r.Decides = "C10 is decided in its structural part only: (a) provenance of the revision: every command result carries the entry's own index, Update hands the marshalled result back for every command kind except the internal no-op, the table layer copies the decoded revision into the response header, nothing else writes ResponseHeader.Revision and the forwarding server returns the leader's message untouched; (b) the consensus read is taken exactly on the linearizable edge and the local read on the other, and the flag is the request's Linearizable for range reads, the constant true for read-only transactions, table snapshots and the replication handler's first applied-index read."
+	r.Decides = "C10 is decided in its structural part only: (a) provenance of the revision: every command result carries the entry's own index, Update hands the marshalled result back for every command kind except the internal no-op, the table layer copies the decoded revision into the response header, nothing else writes ResponseHeader.Revision and the forwarding server returns the leader's message untouched; (b) the consensus read is taken exactly on the linearizable edge and the local read on the other, and the flag is the request's Linearizable for range reads, the constant true for read-only transactions, table snapshots and the replication handler's first applied-index read; (c) reads nested in logged commands go through the apply batch (they see every write with a smaller revision, also those of the same apply call); (d) a read-only transaction reads one Pebble snapshot (a state that existed)."
 	r.NotDecided = []string{"linearizability / prefix consistency of what dragonboat's SyncRead and StaleRead return", "concurrent client histories"}
 	r.Assume = []string{"dragonboat assigns consecutive indices in commit order and SyncRead is a ReadIndex read"}
 	a := w.FsmAnchors()
@@ -27,6 +27,10 @@ func checkC10(w *World, r *Report) {
 	c10ResultReported(w, r, a)
 	c10HeaderRevision(w, r, a)
 	c10ReadPath(w, r)
+	// a logged transaction's nested reads must see every write with a smaller revision: the apply
+	// path reads its own (indexed) batch; a read-only transaction must reflect one state that existed
+	c01ReadOwnBatch(w, r, a, "C10.c", "c-apply-reads-own-batch")
+	c02OneSnapshot(w, r, a, "C10.d", "d-readonly-txn-one-state")
 }
 
 func c10ResultReported(w *World, r *Report, a *FsmA) {
